@@ -146,6 +146,38 @@ func TestVerifC25(t *testing.T) {
 				prior = deepBeta(beta)
 			}
 			snapshot := deepBeta(beta)
+			// a discarded sibling first: another block computed on the very same prior-state objects (a candidate that is
+			// thrown away, a fork, a block rejected by a later step). The block that follows must not see any trace of it.
+			if carrySame && r.IntN(3) == 0 {
+				xh := hdr
+				xh.Slot++
+				copy(xh.ParentStateRoot[:], r.Bytes(32))
+				copy(xh.ExtrinsicHash[:], r.Bytes(32))
+				var xeg types.GuaranteesExtrinsic
+				for g := 0; g < 1+r.IntN(C); g++ {
+					var ph [32]byte
+					copy(ph[:], r.Bytes(32))
+					xeg = append(xeg, types.ReportGuarantee{Report: types.WorkReport{PackageSpec: types.WorkPackageSpec{Hash: types.WorkPackageHash(ph)}}})
+				}
+				xacc := make(types.LastAccOut, 1+r.IntN(3))
+				for i := range xacc {
+					xacc[i].ServiceID = types.ServiceID(r.U32())
+					copy(xacc[i].Hash[:], r.Bytes(32))
+				}
+				vh.Guard(func() {
+					blockchain.ResetInstance()
+					cs := blockchain.GetInstance()
+					cs.GetPriorStates().SetBeta(prior)
+					cs.AddBlock(types.Block{Header: xh, Extrinsic: types.Extrinsic{Guarantees: xeg}})
+					cs.GetPosteriorStates().SetLastAccOut(xacc)
+					rh.STFBetaH2BetaHDagger()
+					rh.STFBetaHDagger2BetaHPrime()
+				})
+				h.Inc("discarded_sibling_blocks")
+				if len(model.hist) == H {
+					h.Inc("discarded_sibling_blocks_on_a_full_history")
+				}
+			}
 			var gotH types.BlocksHistory
 			var gotB types.Mmr
 			p, msg, st := vh.Guard(func() {
